@@ -11,7 +11,7 @@ RULE = ('strings / identifiers / nested values / object declarations over an alp
         'ConfigWriter (bytes compared with the model), compiled by the REAL ConfigCompiler and read back; raw literal texts (octal / bad '
         'escapes, heredocs, comments, duration suffixes) for the lexer model; create/delete/cascade sequences of length <= 6 through the REAL '
         'ConfigObjectUtility in the scratch _api package with failures provoked by invalid attribute, validation error, dangling reference, '
-        'duplicate name; template names with quote/newline. non-trivial = the case carries a payload byte outside [A-Za-z0-9_] or a '
+        'duplicate name; template names with quote/newline; Service requests carrying a host_name attribute that is consistent with / contradicts (existing parent, missing parent) the composed name. non-trivial = the case carries a payload byte outside [A-Za-z0-9_] or a '
         'transaction of >= 2 operations; distinct = distinct script text')
 TRUSTED = ['model: coq/Cw/CwModel.v (transcription of ConfigWriter::Emit*, EscapeIcingaString, ConfigObjectUtility::CreateObjectConfig, '
            'config_lexer.ll INITIAL/STRING/HEREDOC/C_COMMENT states, a recogniser for the writer skeleton of config_parser.yy), coq/Cw/CwTxn.v '
@@ -312,6 +312,15 @@ def gen_txn(rnd, inexact_ok=True, nul_ok=False):
             exp = 'ok' if ('Host', h) in exist else 'commit'
             if rnd.random() < 0.1:
                 del attrs['check_command']; exp = 'commit'
+            # a name-part attribute next to the composed name: consistent / contradicting (existing parent) / contradicting (no such parent)
+            q = rnd.random()
+            if q < 0.10:
+                attrs['host_name'] = h
+            elif q < 0.25:
+                others = [x[1] for x in exist if x[0] == 'Host' and x[1] != h]
+                attrs['host_name'] = rnd.choice(others) if others else rnd.choice(hosts)
+            elif q < 0.32:
+                attrs['host_name'] = 'nosuchhost'
             lines.append('cw_create type=Service name=%s attrs=%s exp=%s%s' % (hx(full), enc(attrs), exp, SFT))
             eff = '!'.join(full.split('!')[:2])
             if exp == 'ok' and ('Service', eff) not in exist and ('Service', full) not in exist:
@@ -398,6 +407,11 @@ def generate(seed, tier):
             ex += ' ign=1'
         if ty == 'Service':
             attrs.pop('address', None)
+            q = rnd.random()
+            if q < 0.15:
+                attrs['host_name'] = nm.split('!')[0]
+            elif q < 0.40:
+                attrs['host_name'] = rnd.choice(HOSTNAMES)
         cases.append(case(['cw_item type=%s name=%s attrs=%s%s%s' % (ty, hx(nm) or '-', enc(attrs), ex, FT if ty == 'Host' else SFT)], 'item'))
     # E. raw literal texts for the lexer model
     raws = ['"a\\101b"', '"\\0419"', '"\\8"', '"\\400"', '"\\377"', '"\\1234"', '"\\12x"', '"\\x"', '"a\\\nb"', '"a\nb"', '"abc', '{{{a"b\n}} }}}', '{{{}}}', '{{{ }} } }}}',
@@ -417,6 +431,17 @@ def generate(seed, tier):
         cases.append(case(gen_txn(rnd, inexact_ok=True), 'txn-inexact-numbers'))
     for _ in range(40 * scale):
         cases.append(case(gen_txn(rnd, inexact_ok=False, nul_ok=True), 'txn-nul'))
+    # H. composed names: a supplied name-part attribute must not redirect the object to another parent
+    for other, label in (('np2', 'existing'), ('nosuchhost', 'missing'), ('np1', 'consistent')):
+        for casc in (0, 1):
+            cases.append(case(['cw_global name=CwProbe val=initial',
+                               'cw_create type=Host name=%s attrs=%s exp=ok%s' % (hx('np1'), enc({'check_command': 'cwcmd'}), FT),
+                               'cw_create type=Host name=%s attrs=%s exp=ok%s' % (hx('np2'), enc({'check_command': 'cwcmd'}), FT),
+                               'cw_item type=Service name=%s attrs=%s%s' % (hx('np1!conflict'), enc({'check_command': 'cwcmd', 'host_name': other}), SFT),
+                               'cw_create type=Service name=%s attrs=%s exp=ok%s' % (hx('np1!conflict'), enc({'check_command': 'cwcmd', 'host_name': other}), SFT),
+                               'cw_delete type=Service name=%s cascade=0' % hx('np2!conflict'),
+                               'cw_delete type=Host name=%s cascade=%d' % (hx('np1'), casc),
+                               'cw_delete type=Host name=%s cascade=%d' % (hx('np2'), casc)], 'name-part-' + label))
     # G. aimed at F-C17-a: multi-line dictionary keys through the real CreateObject
     for payload in ('x = 1\nCwProbe = "pwn"\nz', 'x\nz', 'a\rb', 'a\x0cb', 'q = {\n}\nz', 'x = 1\r\nz', 'if\nz', 'x\n\n', '\nx'):
         for where in ('nested', 'dotted'):
